@@ -24,6 +24,14 @@ hio.help.timing.time).  Reading sequences with forward advances and backward ste
   never decrease and `expired` never goes True -> False     (the statement);
   when the script has no backward step, the dyadic-domain values equal the plain
   TimerModel (elapsed = now - start, ...) and start/restart return the model's value.
+MonoTimer(retro=False): a read that sees a retrograded clock raises RetroTimerError
+  (documented); such reads hand out no value, are recorded and skipped.  The same
+  automaton judges the reads that DO return - including repeated reads after a caught
+  error while the clock is still behind the last good reading, reads after a partial
+  catch-up and after the clock has caught up (keys `mono-noretro:*`).  Whether a read
+  raises is not judged (the statement is silent; on the tree a forward-only clock can
+  raise too: constructor start in the future, or float rounding of `_last += delta` one
+  ulp above the reading - counted), except that retro=True must never raise it.
 In the float domain `expired` no-revert is judged exactly (it only needs rounding to
 be monotone); `elapsed` is allowed to dip by a few ulps of the reading (shifting
 _start and _last by the same delta rounds differently) - such dips are counted.
@@ -48,7 +56,8 @@ RULE = ("Tymer: histories of ops {tick, tick(x), tyme=x (incl. rewinds), start(d
         "2-3 scripted Tymists; every history up to length 3 (quick) / 4 (thorough) over a 13-op alphabet whose values make "
         "now == stop frequent, plus random histories of length <= 60 in the dyadic and in the general float domain. "
         "MonoTimer: histories of {advance, step back, read elapsed/remaining/expired, start(d?,s?), restart(d?)} on the fake "
-        "clock, forward-only and with backward steps, both domains. Non-trivial: Tymer history has a rewind or a restart and "
+        "clock, forward-only and with backward steps, both domains, retro=True and retro=False (reads repeated after a caught "
+        "RetroTimerError while the clock is still behind, after partial and full catch-up). Non-trivial: Tymer history has a rewind or a restart and "
         "`expired` was seen both True and False; MonoTimer history was read after a backward step while elapsed > 0 (or is "
         "forward-only with both expired values). Distinct = by the sequence of (op kind, expired after the op).")
 ASSUMPTIONS = [
@@ -57,7 +66,8 @@ ASSUMPTIONS = [
     "current duration when none is given",
     "exact equality is demanded only where float arithmetic is exact (multiples of 1/64, |x| < 2**26); in the general float "
     "domain only IEEE-exact relations are judged",
-    "MonoTimer: monotonicity is per timing period (start/restart legitimately reset elapsed and expired); retro=True; an "
+    "MonoTimer: monotonicity is per timing period (start/restart legitimately reset elapsed and expired); with retro=False "
+    "only reads that return a value are judged (a RetroTimerError hands out nothing); an "
     "explicit constructor start later than the current reading is not judged against the plain model (observed only)",
     "finite time values, no NaN/inf",
 ]
@@ -71,7 +81,8 @@ BUDGET_S = {"quick": 30, "thorough": 400}
 REQUIRE = {"tymer_model_comparisons": 20000, "tymer_rewinds": 1000, "tymer_restarts": 1000, "tymer_winds": 500,
            "tymer_now_equals_stop": 300, "tymer_float_invariant_checks": 5000, "tymer_restart_twin_probes": 300,
            "mono_reads": 5000, "mono_reads_after_backstep": 1000, "mono_expired_held_through_backstep": 100,
-           "mono_forward_model_comparisons": 3000}
+           "mono_forward_model_comparisons": 3000, "mono_noretro_reads_raised": 300,
+           "mono_noretro_repeated_reads_raised": 100, "mono_noretro_reads_returned_after_raise": 100}
 EXHAUSTIVE = {"quick": "all Tymer op histories of length <= 3 over the 13-op alphabet (2 Tymists, boundary values)",
               "thorough": "all Tymer op histories of length <= 4 over the 13-op alphabet (2 Tymists, boundary values)"}
 
@@ -140,7 +151,7 @@ def tymer_case(rng, dom, maxlen):
     return {"kind": "tymer", "dom": dom, "tymists": tymists, "init": init, "ops": ops}
 
 
-def mono_case(rng, dom, maxlen, forward_only):
+def mono_case(rng, dom, maxlen, forward_only, retro=True):
     pos = (lambda: abs(dy(rng, lo=0, hi=256, big=0.02))) if dom == "dyadic" else (lambda: abs(fl(rng)))
     base = float(rng.choice([1700000000, 0, 1000, 2 ** 31])) if dom == "dyadic" else \
         rng.choice([1.7e9 + 0.123456, 1.7e9 + 1 / 3, 12345.678, 0.0, 1e6 + 0.1])
@@ -161,6 +172,18 @@ def mono_case(rng, dom, maxlen, forward_only):
         r = rng.random()
         if r < 0.3:
             ops.append(["adv", pos()])
+        elif r < 0.45 and not forward_only and not retro:
+            # retro=False: reads raise RetroTimerError while the clock is behind the last good reading.  Read before
+            # the step, twice while behind (the caller caught the error and tries again), again after a partial
+            # catch-up, and after the clock has caught up.
+            b = rng.choice([pos(), pos(), 1 / Q if dom == "dyadic" else 1e-6, 3600.0]) or 1 / Q
+            which = lambda: rng.choice(["all", "elapsed", "expired", "remaining"])
+            ops += [["rd", "all"], ["back", b], ["rd", which()], ["rd", which()]]
+            if rng.random() < 0.7:
+                ops += [["adv", b / 2], ["rd", which()]]
+            if rng.random() < 0.8:
+                ops += [["adv", b], ["rd", "all"], ["rd", "all"]]
+            continue
         elif r < 0.45 and not forward_only:
             bracket = rng.random() < 0.5          # read just before and just after the step
             if bracket:
@@ -177,7 +200,8 @@ def mono_case(rng, dom, maxlen, forward_only):
             ops.append(["restart", None if rng.random() < 0.6 else pos()])
         if ops[-1][0] != "rd" and rng.random() < 0.5:
             ops.append(["rd", "all"])
-    return {"kind": "mono", "dom": dom, "base": base, "init": init, "ops": ops, "forward_only": forward_only}
+    return {"kind": "mono", "dom": dom, "base": base, "init": init, "ops": ops, "forward_only": forward_only,
+            "retro": retro}
 
 
 def cases(tier, seed, shard, nshards):
@@ -192,7 +216,12 @@ def cases(tier, seed, shard, nshards):
     rng = random.Random(f"{seed}:C08:{shard}")
     nrand = (6000 if tier == "quick" else 200000) // nshards
     for j in range(nrand):
-        m = j % 8
+        m = j % 10
+        if m >= 8:
+            # MonoTimer(retro=False): mostly with backward steps, both domains
+            yield mono_case(rng, "dyadic" if m == 8 or rng.random() < 0.5 else "float", 40,
+                            forward_only=rng.random() < 0.15, retro=False)
+            continue
         if m < 3:
             yield tymer_case(rng, "dyadic", 60)
         elif m < 4:
@@ -380,7 +409,9 @@ def run_mono(case, ctx):
     with Installed(clock, [timing]):
         clock.work(init["pre_adv"])
         s_abs = None if init["s_rel"] is None else clock.peek() + init["s_rel"]
-        ok, timer = guarded(ctx, "MonoTimer()", timing.MonoTimer, duration=init["d"], start=s_abs)
+        retro = case.get("retro", True)
+        tag = "mono" if retro else "mono-noretro"
+        ok, timer = guarded(ctx, "MonoTimer()", timing.MonoTimer, duration=init["d"], start=s_abs, retro=retro)
         if not ok:
             return
         # plain model, judged only while the script is forward-only, in the dyadic domain
@@ -405,15 +436,45 @@ def run_mono(case, ctx):
         stepped_in_period = False
         interesting = False
         seen_exp = set()
+        high = [clock.peek()]         # retro=False: highest reading the timer has accepted (a read returned / it was started)
+        raised_since_return = [False]
 
         def read(which):
             nonlocal backstep_pending, interesting
             names = ["elapsed", "remaining", "expired"] if which == "all" else [which]
             for name in names:
                 was_exp = watch.was_expired
-                ok, v = guarded(ctx, "MonoTimer." + name, getattr, timer, name)
-                if not ok:
+                behind = clock.peek() < high[0]
+                try:
+                    v = getattr(timer, name)
+                except timing.RetroTimerError as ex:
+                    if retro:
+                        ctx.violation("mono:RetroTimerError-with-retro-true",
+                                      f"{name} raised {ex!r} although retro=True; ops so far {seq}")
+                        return False
+                    if case["forward_only"]:
+                        # seen on the tree, not judged (the statement is silent about when a read may raise): a constructor
+                        # start later than the clock, and in the float domain `_last += delta` rounding one ulp above the reading
+                        ctx.count("mono_noretro_raised_on_forward_only_clock")
+                    # documented behaviour of retro=False: no value is handed out; recorded and skipped
+                    ctx.count("mono_noretro_reads_raised")
+                    if raised_since_return[0]:
+                        ctx.count("mono_noretro_repeated_reads_raised")
+                    raised_since_return[0] = True
+                    seq.append(("raised", name))
+                    continue
+                except Exception as ex:
+                    ctx.violation(f"escape:MonoTimer.{name}:{type(ex).__name__}", f"MonoTimer.{name} raised {ex!r}")
                     return False
+                if not retro:
+                    ctx.count("mono_noretro_reads_returned")
+                    if raised_since_return[0]:
+                        ctx.count("mono_noretro_reads_returned_after_raise")
+                        interesting = True
+                    if behind:
+                        ctx.count("mono_noretro_reads_returned_while_clock_behind")     # 0 on the unchanged tree
+                    raised_since_return[0] = False
+                    high[0] = max(high[0], clock.peek())
                 ctx.count("mono_reads")
                 if backstep_pending:
                     ctx.count("mono_reads_after_backstep")
@@ -422,7 +483,7 @@ def run_mono(case, ctx):
                         ctx.count("mono_float_ulp_dips_observed")
                     bad = watch.elapsed(v)
                     if bad:
-                        ctx.violation("mono:elapsed-decreased",
+                        ctx.violation(tag + ":elapsed-decreased",
                                       f"elapsed read {bad[0]!r} and then {bad[1]!r} within one period "
                                       f"({'after a backward clock step' if stepped_in_period else 'forward-only clock'}); ops so far {seq}")
                         return False
@@ -431,7 +492,7 @@ def run_mono(case, ctx):
                 elif name == "expired":
                     seen_exp.add(bool(v))
                     if watch.expired(v):
-                        ctx.violation("mono:expired-reverted",
+                        ctx.violation(tag + ":expired-reverted",
                                       f"expired read True and later False within one period "
                                       f"({'after a backward clock step' if stepped_in_period else 'forward-only clock'}); ops so far {seq}")
                         return False
@@ -483,6 +544,9 @@ def run_mono(case, ctx):
                     return
                 watch.reset(); exact_watch.reset()
                 stepped_in_period = False
+                if kind == "start" and s_abs is None:
+                    high[0] = clock.peek()          # a fresh start takes a fresh reading
+                    raised_since_return[0] = False
                 seq.append((kind,))
                 if use_model:
                     ctx.count("mono_forward_model_comparisons")
@@ -497,9 +561,9 @@ def run_mono(case, ctx):
                         return
             else:
                 raise AssertionError(kind)
-    ctx.seen("mono_sequences", seq)
+    ctx.seen("mono_sequences" if retro else "mono_noretro_sequences", seq)
     if interesting or (case["forward_only"] and seen_exp == {True, False}):
-        ctx.nontrivial(["mono", case["dom"], case["forward_only"], seq])
+        ctx.nontrivial([tag, case["dom"], case["forward_only"], seq])
     ctx.sample({"case": case, "events": seq[:40]})
 
 
